@@ -350,7 +350,7 @@ class P(Prop):
         (M, "TV.C07.backward_after_full_search", "after a search without target and cut-off (shortest_distance(s) / run_routing_forward(s)), run_routing_backward(t) = None iff t unreachable or t = s, else a route s->t realising the true distance"),
     ]
     partial = []
-    open_statements = ["Track.copy is modelled as the identity on (points, feature table): the deep copy of the Obs objects (no aliasing between the returned track and the edge geometries) is checked by the harness only through the stability of later answers",
+    open_statements = ["Track.copy is modelled as the identity on (points, feature table): that the returned track shares no Obs / coordinate object with the network is not a theorem; the harness checks it by moving the points of every returned track (scribble stream) and validating the later answers of the session",
                        "float rounding of sums of non-dyadic weights is outside the theorems (weights: a linearly ordered additive commutative monoid; the correspondence streams use integers and dyadic rationals, exact in float arithmetic)"]
     modelled = ("Network.addNode / addEdge (NODES with first registration winning, EDGES, NEXT_EDGES filled incrementally; proved to give the model's adjacency); "
                 "Network.run_routing_forward (as for C06) with __correctInputNode (node by id / Node object) and __resetFlags on the flags left by earlier searches; "
